@@ -187,6 +187,8 @@ fn binding() {
     m.ts.push(MT { src: 2, tgt: [other, 0], ntgt: 1, internal: false, ev: 1, has_cond: false });
     m.ts.push(MT { src: other, tgt: [2, 0], ntgt: 1, internal: false, ev: 2, has_cond: false });
     let mut fsm = build_fsm(&m);
+    // a top-level <script>: it is content and must find the data in place
+    fsm.script = 950;
     let g = new_global();
     {
         let mut gd = g.lock().unwrap();
